@@ -2,8 +2,10 @@ import H3.Model.WriteBuf
 import H3.Model.SendSide
 import H3.Spec.Output
 import H3.Lemmas.WriteBuf
+import H3.Lemmas.WriteBufChunks
 import H3.Lemmas.SendFrames
 import H3.Lemmas.SendSide
+import H3.Lemmas.SendSideX
 /-! # C14 — everything an h3 endpoint writes is valid HTTP/3, however the transport takes it
 
 Property theorems only.  Models: `H3.WriteBuf` (`h3/src/stream.rs` `WriteBuf`, its `From`
@@ -72,6 +74,78 @@ theorem C14_buf_view (w : WB) (hwf : w.WF) :
 -- `advance` across the end of the header, and the payload's own panic beyond its end
 example : ((fromFrame (.data [9, 8, 7])).bind (·.advance 3)).map (·.view) = some [8, 7] := by decide
 example : ((fromFrame (.data [9, 8, 7])).bind (·.advance 6)) = none := by decide
+
+/-- Chunking independence.  `Frame<B>` / `WriteBuf<B>` are generic in the payload `B: Buf`; for a
+    payload handed over as ANY list of segments (a `Chain`, a deque of `Bytes`; segments may be
+    empty, also the first) the DATA length field and the bytes handed to the transport depend only
+    on the flattened payload: the conversion yields the `WriteBuf` of the flat payload with the
+    payload left in segments (same header array: length = total of all segments, not of the first);
+    `remaining()` is exact; under every acceptance script the run of the segmented buffer is a run
+    of the FLAT buffer under a script of the same length (each poll accepting what was actually
+    taken) — so every statement proved for all scripts about contiguous payloads
+    (`C14_writebuf_is_header_then_payload`, `C14_program_output_valid`, whose `poll sid k` steps
+    range over every `k`) covers segmented ones —, nothing is lost, repeated or reordered, and as
+    soon as the script has accepted enough, `write()` returns having handed over exactly
+    `header ++ flattened payload`. -/
+theorem C14_payload_chunking_independent (segs : List Bytes) (hdr : Bytes)
+    (he : encodeFrame (.data segs.flatten) = some hdr) (hfit : hdr.length ≤ WRITE_BUF_ENCODE_SIZE)
+    (script : List Nat) :
+    ∃ w, fromDataC segs = some w ∧ fromFrame (.data segs.flatten) = some w.flat ∧
+      w.remaining = (hdr ++ segs.flatten).length ∧
+      (∃ out w' script', w.drain script = some (out, w') ∧ script'.length = script.length ∧
+        w.flat.drain script' = some (out, w'.flat) ∧
+        out ++ w'.flat.view = hdr ++ segs.flatten ∧ w'.remaining = w'.flat.view.length) ∧
+      ((hdr ++ segs.flatten).length ≤ (script.filter (0 < ·)).length →
+        writeC (fromDataC segs) script = .ready (hdr ++ segs.flatten)) := by
+  have hflat := fromDataC_flat segs
+  have hex : ∃ wf, fromFrame (.data segs.flatten) = some wf := by
+    unfold fromFrame; rw [he]; exact putOpt_new_some _ _ hfit
+  obtain ⟨wf, hwf0⟩ := hex
+  rw [hwf0] at hflat
+  cases hc : fromDataC segs with
+  | none => rw [hc] at hflat; cases hflat
+  | some w =>
+    rw [hc] at hflat
+    simp only [Option.map_some, Option.some.injEq] at hflat
+    subst hflat
+    obtain ⟨bs, hbs, _, hwf, _, _, _, hv⟩ := putOpt_new hwf0
+    rw [he] at hbs
+    cases hbs
+    simp only [framePayload, Option.getD_some] at hv
+    refine ⟨w, rfl, hwf0, by rw [← flat_remaining, remaining_eq_view _ hwf, hv], ?_, ?_⟩
+    · obtain ⟨o, w', ks', hd, hl, hfd, hwf', hov⟩ := drainC_sim w hwf script
+      exact ⟨o, w', ks', hd, hl, hfd, by rw [hov, hv],
+        by rw [← flat_remaining, remaining_eq_view _ hwf']⟩
+    · intro hlen
+      obtain ⟨o, w', hd, hv0, ho⟩ := drainC_complete w hwf script (by rw [hv]; exact hlen)
+      obtain ⟨_, _, _, hd', _, _, hwf', _⟩ := drainC_sim w hwf script
+      rw [hd] at hd'
+      cases hd'
+      have hr : w'.remaining = 0 := by
+        rw [← flat_remaining, remaining_eq_view _ hwf', hv0]; rfl
+      simp only [writeC, hd, hr, if_true]
+      rw [ho, hv]
+
+/-- One `poll_write` over a segmented payload is one `poll_write` over the flat payload that
+    accepts exactly the bytes taken (the step relation of `H3.SendSide`'s `poll sid k`, `k` = the
+    number of bytes taken); the same for `(StreamType, Frame::Data)` pairs. -/
+theorem C14_chunked_poll_is_flat_poll (w : WBC) (hwf : w.flat.WF) (k : Nat) :
+    ∃ o w', w.step k = some (o, w') ∧ w.flat.step o.length = some (o, w'.flat) ∧ w'.flat.WF ∧
+      o.length ≤ k ∧ (0 < k → w.flat.view ≠ [] → o ≠ []) := by
+  obtain ⟨o, w', h1, h2, h3, _, h5, h6⟩ := stepC_sim w hwf k
+  exact ⟨o, w', h1, h2, h3, by omega, h6⟩
+
+-- three segments, the first and the third empty: the length field counts all of them, the
+-- transport gets header, then segment after segment; the same bytes as for the flat payload
+example : writeC (fromDataC [[], [0xaa, 0xbb], [], [0xcc]]) [1, 0, 7, 7, 7] =
+    .ready [0x00, 0x03, 0xaa, 0xbb, 0xcc] := by decide
+example : (fromDataC [[0xaa], [0xbb, 0xcc]]).map (fun w => (w.remaining, w.chunk, (w.advance 3).map (·.chunk)))
+    = some (5, [0x00, 0x03], some [0xbb, 0xcc]) := by decide
+-- a script that stops inside the second segment
+example : (match writeC (fromDataC [[1], [2, 3, 4]]) [2, 5, 2] with
+    | .pending out w => (out, w.view)
+    | _ => ([], [])) = ([0x00, 0x04, 1, 2, 3], [4]) := by decide
+example : (fromPairDataC 0x21 [[], [7]]).map (·.flat.view) = some [0x21, 0x00, 0x01, 7] := by decide
 
 /-- The stream-type prefix of `(StreamType, Frame)` pairs and of unidirectional stream headers
     precedes the frame: the view is `varint(type) ++ header ++ payload`, under every script. -/
@@ -207,6 +281,50 @@ theorem C14_program_output_valid (server : Bool) (cfg : Config) (gN : Nat) (st0 
   rw [hcx] at this
   exact this
 
+/-- The run theorem over the EXTENDED machine: besides the writing calls of
+    `C14_program_output_valid`, in any order and number, `stop_stream(code)`, the peer's
+    STOP_SENDING on any stream, a call abandoned in mid-write with its handle, `stop_sending`, the
+    peer's RESET_STREAM, `split`, `SendRequest::clone` and requests through any clone (each with
+    its own copy of the grease flag).  For every run: every stream still live satisfies the output
+    specification as before; every stream whose send side was ended by one of these satisfies it
+    as it stands — it may end inside a frame: a PREFIX of valid output, and a whole number of
+    frames if it had been finished —; h3 resets request streams only (never a control or QPACK
+    stream); and a live request stream on which no write is in flight holds a whole number of
+    frames whether finished or not (the `length` field of its last DATA / HEADERS frame equals the
+    bytes that follow). -/
+theorem C14_program_output_valid_ext (server : Bool) (cfg : Config) (gN : Nat) (st0 : State)
+    (h0 : init server cfg gN = some st0) (steps : List XStep) :
+    (∀ e ∈ (xrun { st := st0 } steps).st.streams,
+      checkStream { server := server, wt := cfg.wt } e.1 e.2.log e.2.fin = none ∧
+      (e.2.kind = .request → e.2.cur = none → checkRequest e.2.log true = none)) ∧
+    (∀ e ∈ (xrun { st := st0 } steps).frozen,
+      checkStream { server := server, wt := cfg.wt } e.1 e.2.1.log e.2.1.fin = none ∧
+      (e.2.2.isSome = true → e.1 % 4 = 0)) := by
+  have hx0 : XInv { st := st0 } :=
+    ⟨init_inv server cfg gN st0 h0, fun e he => by cases he⟩
+  have hinv := xrun_inv _ steps hx0
+  have hcx : cxOf (xrun { st := st0 } steps).st = { server := server, wt := cfg.wt } := by
+    rw [xrun_cx]; exact init_cx server cfg gN st0 h0
+  refine ⟨?_, ?_⟩
+  · intro e he
+    have hs := hinv.1 e he
+    rw [hcx] at hs
+    exact ⟨sinv_valid _ _ _ hs, sinv_idle_request_whole _ _ _ hs⟩
+  · intro e he
+    have := hinv.2 e he
+    rw [hcx] at this
+    exact this
+
+/-- the machine of `C14_program_output_valid` is the extended one restricted to writing calls -/
+theorem C14_ext_conservative (st : State) (steps : List Step) :
+    (xrun { st := st } (steps.map .api)).st = run st steps ∧
+    (xrun { st := st } (steps.map .api)).frozen = [] := by
+  induction steps generalizing st with
+  | nil => exact ⟨rfl, rfl⟩
+  | cons s r ih =>
+    have := ih (step st s)
+    simpa [xrun, run, xstep, isFrozen] using this
+
 /-- a concrete client run: the control header trickles out (3 bytes, `Pending`, the rest), a
     request with an empty and a two-byte DATA frame is sent one byte at a time and finished
     with a grease frame, GOAWAY follows on the control stream -/
@@ -280,5 +398,26 @@ example : greaseId (GREASE_RANGE_END - 1) = 4611686018427387871 ∧
     writeVar (greaseId (GREASE_RANGE_END - 1)) = some [0xff, 0xff, 0xff, 0xff, 0xff, 0xff, 0xff, 0xdf] := by
   decide
 example : isReserved 0x21 = true ∧ isReserved 0x41 = false ∧ isReserved 0x5f = true := by decide
+
+-- a client: the request's DATA frame is cut by the peer's STOP_SENDING after 3 of its 5 bytes (the
+-- stream stays a prefix of valid output and never moves again, later calls write nothing), a
+-- second request through a clone made before the first request carries its own grease frame
+def demoXSteps : List XStep :=
+  [.api (.poll 2 1000), .api (.poll 6 1), .api (.poll 10 1),
+   .cloneSender 0, .sendRequestVia 0 0 [0xd1], .api (.poll 0 100), .api (.poll 0 100),
+   .api (.sendData 0 [7, 8, 9]), .api (.poll 0 100), .api (.poll 0 2), .peerStop 0 268,
+   .api (.poll 0 100), .api (.sendData 0 [1]), .api (.finish 0 5),
+   .sendRequestVia 1 4 [0xd1], .api (.poll 4 100), .api (.poll 4 100), .api (.finish 4 5),
+   .api (.poll 4 100), .stopStream 4 268, .stopStream 2 1]
+
+def demoX : Option XState := (init false demoCfg 2).map (fun s => xrun { st := s } demoXSteps)
+
+example : demoX.map (fun x => x.st.streams.map (·.1)) = some [2, 6, 10] := by decide +kernel
+example : demoX.map (fun x => x.frozen.map (fun e => (e.1, e.2.1.log))) =
+    some [(0, [0x01, 0x01, 0xd1, 0x00, 0x03, 7, 8]),
+          (4, [0x01, 0x01, 0xd1, 0x40, 0xbc, 0x06, 103, 114, 101, 97, 115, 101])] := by decide +kernel
+example : demoX.map (fun x => x.frozen.map (fun e => (e.2.1.fin, e.2.2))) =
+    some [(false, none), (true, some 268)] := by decide +kernel
+example : demoX.map (·.handles) = some [false, false] := by decide +kernel
 
 end H3.Props.C14
